@@ -5,6 +5,7 @@ import Driver.AssertionDriver
 import Driver.NumDriver
 import Driver.DispatcherDriver
 import Driver.RandomTripDriver
+import Driver.MissionDriver
 open Lean
 
 def handle (line : String) : String :=
@@ -24,6 +25,7 @@ def handle (line : String) : String :=
       | "geo" => NumDriver.run j
       | "dispatcher" => DispatcherDriver.run j
       | "randomtrip" => RandomTripDriver.run j
+      | "mission" => MissionDriver.run j
       | _ => .error s!"unknown kind {kind}"
     match r with
     | .ok v => v.compress
